@@ -379,9 +379,7 @@ func (c25) Execute(sc *engine.Scenario) *engine.Result {
 		in.m.Abandon()
 		in.t.finish()
 		solo[i] = in.t.points
-		if in.m.Spk != nil {
-			in.m.GB.Cleanup()
-		}
+		in.m.GB.Cleanup() // every instance is released the way Run releases it
 	}
 	// interleaved run
 	insts := make([]*c25inst, n)
@@ -460,9 +458,7 @@ func (c25) Execute(sc *engine.Scenario) *engine.Result {
 		if len(pts) > 0 {
 			res.Digest ^= pts[len(pts)-1] + uint64(i)
 		}
-		if in.m.Spk != nil {
-			in.m.GB.Cleanup()
-		}
+		in.m.GB.Cleanup() // every instance is released the way Run releases it
 	}
 	res.Sig(fmt.Sprintf("%sgran=%d/mid=%v", kinds, sc.P("gran", 0), midRun))
 	return res
